@@ -321,8 +321,8 @@ pub struct InjectContext<'a> {
 }
 
 lazy_static! {
-    static ref RE_ITEMS: Regex = Regex::new(r"\\?(\{ *-?[0-9.+]*? *})").unwrap();
-    static ref RE_FIELDS: Regex = Regex::new(r"\\?(\{ *-?[0-9.,cq+n]*? *})").unwrap();
+    static ref RE_ITEMS: Regex = Regex::new(r"\\?(\{ *-?[0-9.+-]*? *})").unwrap();
+    static ref RE_FIELDS: Regex = Regex::new(r"\\?(\{ *-?[0-9.,cq+n-]*? *})").unwrap();
 }
 
 /// Check if a command depends on item
